@@ -95,6 +95,35 @@ def histS1 : List Op :=
 example : Flat progS1 ∧ CleanCalls 4 1 progS1 histS1 :=
   ⟨by decide, cleanCalls_of_B 4 1 progS1 histS1 (by decide +kernel)⟩
 
+/-- **Stage 2a** (nested calls, one epoch).  ANY program — chains, diamonds, every parameter shape,
+ref functions — and any history of the form `writes ++ reads`: `writes` contains no call (sets,
+removes, singleton and tracked-field writes, also retain / gc), `reads` contains no source
+operation (calls, lookups, retain / clear / never-gc, collections with any capacity, in any
+order).  Extra hypothesis: `CleanCalls`.  `exec` then simulates the strict from-scratch evaluator
+fuel for fuel — the dependency stack is its path, `assert_no_cycles` its cycle check — every node
+created is correct, and a node met again (same epoch, possibly after a collection re-created it)
+is served or rebuilt with the same value. -/
+theorem C01_stage2_single_epoch_partial (fuel cap : Nat) (P : Prog) (writes reads : List Op)
+    (hw : ∀ op, op ∈ writes → op.isCall = false) (hr : ∀ op, op ∈ reads → op.isSrc = false)
+    (hclean : CleanCalls fuel cap P (writes ++ reads)) : C01_statement_at fuel cap P (writes ++ reads) := by
+  intro pre f a rest hh
+  rcases c01_stage2a fuel cap writes reads hw hr hclean pre f a rest hh with hd | hv
+  · exact Or.inr (Or.inr (Or.inr hd))
+  · exact Or.inl hv
+
+/- Non-vacuity: a chain of depth 3 with a value-preserving middle, a diamond over a shared leaf, a
+singleton reader, capacity 1; calls interleaved with two collections and a retain. -/
+def progS2 : Prog :=
+  [⟨0, .add (.call 1 .param) (.call 2 .param)⟩, ⟨0, .half (.call 3 .param)⟩, ⟨1, .add (.call 3 .param) (.sing 1)⟩,
+   ⟨0, .src .param⟩]
+def writesS2 : List Op := [.set 0 4, .set 1 9, .sset 1 2, .tins 0 1, .rem 1, .set 1 6]
+def readsS2 : List Op :=
+  [.call 0 0, .call 0 1, .gc, .call 1 1, .retain 1 1, .call 0 0, .look 0 1, .gc, .call 2 1, .call 0 1, .unretain 1 1]
+
+example : (∀ op, op ∈ writesS2 → op.isCall = false) ∧ (∀ op, op ∈ readsS2 → op.isSrc = false) ∧
+    CleanCalls 6 1 progS2 (writesS2 ++ readsS2) :=
+  ⟨by decide, by decide, cleanCalls_of_B 6 1 progS2 _ (by decide +kernel)⟩
+
 /-- `C01_statement` is therefore false. -/
 theorem C01_statement_false : ¬ C01_statement :=
   fun H => C01_witness_absent_singleton (H 8 10 _ _)
